@@ -105,7 +105,39 @@ def V(out, impl, kind, trigger, text, case):
                                 {'impl': impl, 'case': case}, weight=(0, len(case.get('events', [])))))
 
 
+def run_dropped_only(impl, case, out):
+    """The only upgrade attempt dies before the WebSocket accept: the session simply stays on polling."""
+    k, with_poll = case['queued'], case['poll']
+    w = peer.make_world(impl, server_kwargs=dict(max_http_buffer_size=L, ping_interval=5, ping_timeout=5, async_handlers=False))
+    led = Ledger()
+    try:
+        sid = peer.sid_of(peer.open_polling(w))
+        pending = peer.poll(w, sid) if with_poll else None
+        w.ws(peer.WSQ + '&sid=' + sid, fail_accept=True)
+        w.run()
+        for i in range(k):
+            led.sent.append('q%d' % i)
+            w.call('send', sid, 'q%d' % i)
+            w.run()
+        led.absorb_poll(pending)
+        for _ in range(k + 1):
+            g = peer.poll(w, sid)
+            if not g.done:
+                break
+            led.absorb_poll(g)
+        tr = w.transport(sid) if sid in w.live_sids() else None
+        if tr != 'polling':
+            V(out, impl, 'failed_handshake_changed_transport', 'dropped_before_accept', 'transport() = %r' % (tr,), case)
+        for kind, text in led.problems(True):
+            V(out, impl, kind, 'dropped_before_accept', text, case)
+        return 'dropped-only'
+    finally:
+        w.teardown()
+
+
 def run_history(impl, case, out):
+    if case.get('only_dropped'):
+        return run_dropped_only(impl, case, out)
     events, k, with_poll = case['events'], case['queued'], case['poll']
     w = peer.make_world(impl, server_kwargs=dict(max_http_buffer_size=L, ping_interval=5, ping_timeout=5,
                                                  async_handlers=False))
@@ -115,6 +147,11 @@ def run_history(impl, case, out):
         if sid is None:
             V(out, impl, 'setup_failed', 'setup', 'open failed', case)
             return None
+        if case.get('pre') == 'dropped':
+            # an earlier upgrade attempt whose socket was gone before the WebSocket handshake could be answered
+            # (the driver fails before the Engine.IO handler runs): harmless, a later upgrade is still possible
+            w.ws(peer.WSQ + '&sid=' + sid, fail_accept=True)
+            w.run()
         pending = peer.poll(w, sid) if with_poll else None
         s = peer.ws_upgrade(w, sid)
         if not s.accepted:
@@ -398,6 +435,11 @@ def run(ctx):
             for k in (0, 1, 2):
                 for poll in (False, True):
                     jobs.append(('hist', impl, {'events': sq, 'queued': k, 'poll': poll}))
+                    if len(sq) <= 2:
+                        jobs.append(('hist', impl, {'events': sq, 'queued': k, 'poll': poll, 'pre': 'dropped'}))
+        for k in (0, 1, 2, 3):
+            for poll in (False, True):
+                jobs.append(('hist', impl, {'events': [], 'queued': k, 'poll': poll, 'only_dropped': True}))
         jobs.append(('cfg', impl, None))
     res = parallel.pmap_chunks(_work, parallel.split(jobs, ctx.workers * 6), ctx.workers, ctx.seed, maxtasks=6)
     n = 0
@@ -427,7 +469,7 @@ def run(ctx):
         'samples': [{'events': ['2probe', '', '5'], 'queued': 2, 'poll': True}] + samples[:2],
         'evaluations': n + st.executions, 'distinct_nontrivial': n + st.executions,
         'rule': 'history search: every event sequence of length <= 2 over %d handshake events%s x queued messages {0,1,2} x pending poll '
-                '{no,yes}, each with its recovery suffix, x {Server, AsyncServer}; transport configuration cells; schedule search: '
+                '{no,yes} (sequences of length <= 2 also after an earlier upgrade attempt whose socket was gone before the WebSocket accept), each with its recovery suffix, x {Server, AsyncServer}; transport configuration cells; schedule search: '
                 'every 1-event and probe+1-event handshake raced against one poll and one send, all interleavings of the three '
                 'scripts at quiescence and up to %d deviation(s) (early injection / preemption). states = histories + distinct '
                 'race outcomes; transitions = environment steps (8 per history, estimated) + decision points of the race executions.'
